@@ -115,6 +115,8 @@ type DItem struct {
 
 type Dump struct {
 	Items []DItem `json:"items"`
+	// the same with the rules of every sys workspace sorted (Go map order of one statement's rules)
+	SysDigestCanon string `json:"sys_digest_canon,omitempty"`
 	// digest of everything in package sys (types, workspaces, ACL): must equal the digest of an
 	// application that declares nothing
 	SysDigest string `json:"sys_digest"`
@@ -385,26 +387,29 @@ func dumpType(t appdef.IType) (DItem, bool) {
 
 func dumpApp(app appdef.IAppDef) Dump {
 	d := Dump{Items: []DItem{}}
-	var sys []string
+	var sys, sysCanon []string
 	for _, t := range app.Types() {
 		it, _ := dumpType(t)
 		if t.QName().Pkg() == appdef.SysPackage {
 			js, _ := json.Marshal(it) // not %+v: the item holds a pointer
 			sys = append(sys, string(js))
+			if len(it.ACL) > 1 {
+				acl := append([]DRule{}, it.ACL...)
+				sort.SliceStable(acl, func(i, j int) bool { return fmt.Sprint(acl[i]) < fmt.Sprint(acl[j]) })
+				it.ACL = acl
+				js, _ = json.Marshal(it)
+			}
+			sysCanon = append(sysCanon, string(js))
 			continue
 		}
 		d.Items = append(d.Items, it)
 	}
-	for _, r := range app.ACL() {
-		if r.Workspace().QName().Pkg() == appdef.SysPackage {
-			js, _ := json.Marshal(dumpRule(r))
-			sys = append(sys, "acl "+string(js))
-		}
-	}
 	// the application-level rule list is in creation order over all workspaces (Go map order over
 	// packages); the order that matters is the one inside each workspace item
 	sort.Strings(sys)
+	sort.Strings(sysCanon)
 	d.SysDigest = digest(strings.Join(sys, "\n"))
+	d.SysDigestCanon = digest(strings.Join(sysCanon, "\n"))
 	return d
 }
 
